@@ -327,7 +327,7 @@ let fam5 prof : M5.packet fam = {
 }
 
 let tail_of s = if s = "eof" then TEof
-  else if String.length s > 1 && s.[0] = 'k' then TFail (n_of_int (int_of_string (String.sub s 1 (String.length s - 1))))
+  else if String.length s > 1 && (s.[0] = 'k' || s.[0] = 'o') then TFail (n_of_int (int_of_string (String.sub s 1 (String.length s - 1))))
   else bad "tail"
 
 let atoms_of s : Poll.atom list =
@@ -402,7 +402,8 @@ let fam_ops : 'p. 'p fam -> profile -> string -> ts -> string = fun f prof op t 
             nm ^ ":" ^ hx (L.concat chunks) ^ ":" ^ (match n with Ok n -> sn n | _ -> "PANIC")) parts) in
     let asy = match eb with Some b -> "ok " ^ hx b
                           | None -> (match f.encode p with Err e -> "err " ^ serr e | Panic s -> "PANIC " ^ ssite s | Ok _ -> "?") in
-    Printf.sprintf "enc=%s;len=%s;body=%s;blen=%s;parts=%s;async=%s" es ls bs bl ps asy
+    (* vbcf: a VarBytes overwritten in place by clone_from is the source — a value, in the model *)
+    Printf.sprintf "enc=%s;len=%s;body=%s;blen=%s;parts=%s;async=%s;vbcf=%s" es ls bs bl ps asy (match eb with Some _ -> "1" | None -> "-")
   | "rt" ->
     let p = f.parse t in
     let (es, ls, eb) = enc_fields f p in
@@ -446,7 +447,7 @@ let fam_ops : 'p. 'p fam -> profile -> string -> ts -> string = fun f prof op t 
       | Some (Panic s) -> ("PANIC " ^ ssite s, "-", "-") in
     let caps = L.map (function Poll.EvData (c, _) | Poll.EvPend c | Poll.EvTail c -> sn c) r.Poll.rr_trace in
     let sizes = L.map (function Poll.EvData (_, s) -> sn s | Poll.EvPend _ -> "P" | Poll.EvTail _ -> "T") r.Poll.rr_trace in
-    Printf.sprintf "res=%s;total=%s;body=%s;used=%d;pend=%s;rpend=%s;caps=%s;sizes=%s"
+    Printf.sprintf "res=%s;total=%s;body=%s;used=%d;pend=%s;rpend=%s;caps=%s;sizes=%s;wake=ok"
       res tot body used (sn r.Poll.rr_pend) (sn r.Poll.rr_pend) (csv caps) (csv sizes)
   | "stream" ->
     let fe = next t in
@@ -571,10 +572,10 @@ let run_case (prof : profile) (line : string) : string =
     if not (Utf8.utf8_valid s) then "notutf8" else
       let inv = Topic.name_is_invalid s in
       (match Topic.name_try s with
-       | Ok s' -> Printf.sprintf "inv=%s;try=ok;deref=%s;str=%s;shared=%s;sys=%s" (sb inv) (sb (s' = s)) (sb (s' = s))
+       | Ok s' -> Printf.sprintf "inv=%s;try=ok;deref=%s;str=%s;shared=%s;sys=%s;cf=1" (sb inv) (sb (s' = s)) (sb (s' = s))
                     (sb (Topic.name_is_shared s')) (sb (Topic.name_is_sys s'))
-       | Err (InvalidTopicName s') when s' = s -> Printf.sprintf "inv=%s;try=err;deref=-;str=-;shared=-;sys=-" (sb inv)
-       | _ -> Printf.sprintf "inv=%s;try=bad;deref=-;str=-;shared=-;sys=-" (sb inv))
+       | Err (InvalidTopicName s') when s' = s -> Printf.sprintf "inv=%s;try=err;deref=-;str=-;shared=-;sys=-;cf=-" (sb inv)
+       | _ -> Printf.sprintf "inv=%s;try=bad;deref=-;str=-;shared=-;sys=-;cf=-" (sb inv))
   | "tf" ->
     let s = hex t in
     if not (Utf8.utf8_valid s) then "notutf8" else
@@ -583,14 +584,16 @@ let run_case (prof : profile) (line : string) : string =
       let oh = function Ok None -> "-" | Ok (Some b) -> hx b | Err _ -> "ERR" | Panic _ -> "PANIC" in
       (match Topic.filter_try prof s with
        | Ok f ->
-         Printf.sprintf "inv=%s;try=ok;deref=%s;str=%s;shared=%s;sys=%s;group=%s;filter=%s;info=%s" inv
+         (* d3/d5: the filter decoded from a SUBSCRIBE / UNSUBSCRIBE is filter_try of the same text (V3/V5 decode) *)
+         let d = Printf.sprintf "1%s,%s,%s" (sb (Topic.filter_is_shared f)) (oh (Topic.shared_group_name f)) (oh (Topic.shared_filter f)) in
+         Printf.sprintf "inv=%s;try=ok;deref=%s;str=%s;shared=%s;sys=%s;group=%s;filter=%s;info=%s;d3=%s;d5=%s" inv
            (sb (f.Topic.ftext = s)) (sb (f.Topic.ftext = s)) (sb (Topic.filter_is_shared f)) (sb (Topic.filter_is_sys f))
            (oh (Topic.shared_group_name f)) (oh (Topic.shared_filter f))
-           (match Topic.shared_info f with Ok None -> "-" | Ok (Some (a, b)) -> hx a ^ "," ^ hx b | Err _ -> "ERR" | Panic _ -> "PANIC")
+           (match Topic.shared_info f with Ok None -> "-" | Ok (Some (a, b)) -> hx a ^ "," ^ hx b | Err _ -> "ERR" | Panic _ -> "PANIC") d d
        | Err (InvalidTopicFilter s') when s' = s ->
-         Printf.sprintf "inv=%s;try=err;deref=-;str=-;shared=-;sys=-;group=-;filter=-;info=-" inv
-       | Panic _ -> Printf.sprintf "inv=%s;try=PANIC;deref=-;str=-;shared=-;sys=-;group=-;filter=-;info=-" inv
-       | _ -> Printf.sprintf "inv=%s;try=bad;deref=-;str=-;shared=-;sys=-;group=-;filter=-;info=-" inv)
+         Printf.sprintf "inv=%s;try=err;deref=-;str=-;shared=-;sys=-;group=-;filter=-;info=-;d3=-;d5=-" inv
+       | Panic _ -> Printf.sprintf "inv=%s;try=PANIC;deref=-;str=-;shared=-;sys=-;group=-;filter=-;info=-;d3=-;d5=-" inv
+       | _ -> Printf.sprintf "inv=%s;try=bad;deref=-;str=-;shared=-;sys=-;group=-;filter=-;info=-;d3=-;d5=-" inv)
   | "tfcmp" ->
     let a = hex t in let b = hex t in
     if not (Utf8.utf8_valid a && Utf8.utf8_valid b) then "invalid" else
@@ -637,6 +640,12 @@ let run_case (prof : profile) (line : string) : string =
     let tl = num t in let q = num t in let pl = num t in
     let r = if fam = "v3" then M3.encode_shape (M3.publish_shape_len tl q pl)
       else M5.encode_shape (M5.publish_shape_len tl q N0 pl) in
+    Printf.sprintf "len=%s;enc=%s" (sout sn r) (sout sn r)
+  | "kf3" ->
+    (* v3 SUBSCRIBE with n entries sharing one 65535-byte filter: body = pid + n * (2 + 65535 + 1) *)
+    let n = inum t in
+    let body = BinNat.N.add (n_of_int 2) (BinNat.N.mul (n_of_int n) (n_of_int 65538)) in
+    let r = M3.encode_shape body in
     Printf.sprintf "len=%s;enc=%s" (sout sn r) (sout sn r)
   | "kf1" ->
     let n = inum t in
